@@ -73,6 +73,9 @@ pub const ENTER_RETURN: u32 = 28;
 pub const WORKER_START: u32 = 30;
 /// A pool worker thread exits (idle timeout).
 pub const WORKER_EXIT: u32 = 31;
+/// The blocking pool tried to reserve a worker slot (a = counter after the attempt,
+/// b = 1 when the slot was reserved, 0 when the limit was reached).
+pub const POOL_RESERVE: u32 = 32;
 /// A buffer-pool buffer changed hands (a = buffer id, b = new owner code).
 pub const POOL_BUF: u32 = 40;
 
@@ -133,6 +136,26 @@ pub fn emit(kind: u32, a: u64, b: i64) {
     if let Some(v) = log.as_mut() {
         let thread = THREAD_ID.with(|t| *t);
         v.push(Event { kind, a, b, thread });
+    }
+}
+
+/// Keeps the event log locked, so that one atomic operation of the code and the
+/// event reporting it are a single step of the recorded history.
+#[derive(Debug)]
+pub struct Section(std::sync::MutexGuard<'static, Option<Vec<Event>>>);
+
+/// Enter an atomic section (see [`Section`]); left by [`Section::emit`] or on drop.
+pub fn section() -> Section {
+    Section(LOG.lock().unwrap_or_else(|e| e.into_inner()))
+}
+
+impl Section {
+    /// Record an event (no-op unless recording) and leave the section.
+    pub fn emit(mut self, kind: u32, a: u64, b: i64) {
+        if let Some(v) = self.0.as_mut() {
+            let thread = THREAD_ID.with(|t| *t);
+            v.push(Event { kind, a, b, thread });
+        }
     }
 }
 
